@@ -118,8 +118,15 @@ def harness_stage(wd, seed, b):
         fs = ex.submit(dialrun.exec_scripted_shards, st['shim_bin'], os.path.join(wd, 'scripted'), seed, b['shards'], b['n']) if st['shim_bin'] else None
         fr = [ex.submit(dialrun.exec_real, st['real_bin'], os.path.join(wd, 'real%d' % i), seed * 100 + i, tier, None, loops)
               for i, (loops, tier) in enumerate(b['real_runs'])]
-        st['scripted'] = fs.result() if fs else []
-        st['real'] = [f.result() for f in fr]
+        try:
+            st['scripted'] = fs.result() if fs else []
+        except Exception as e:   # a harness that dies is a broken correspondence, not a reason to skip the rest
+            st['problems'].append(('harness-crash', str(e)[-1500:], ['# scripted harness crashed']))
+        for f in fr:
+            try:
+                st['real'].append(f.result())
+            except Exception as e:
+                st['problems'].append(('harness-crash', str(e)[-1500:], ['# real-socket harness crashed']))
     st['t']['harness_exec'] = round(time.time() - t0, 1)
     return st
 
